@@ -12,7 +12,7 @@ namespace tis {
 
 struct CellSpec { gen::TriMesh mesh; int type_index = 0; bool polygonal_quads = false; };   // type_index: position in Scenario::types
 
-struct Scenario {
+struct Scenario { int construction_ids = 0;
     std::vector<CellSpec> cells;
     std::vector<cell_type_parameters> types;       // order = order in the XML; global_type_id_ selects the class
     global_simulation_parameters P;
@@ -157,8 +157,10 @@ inline void write_xml(const Scenario& s, const std::string& path, const std::str
 // direct construction (no files): cells of the right class, ready for the solver
 inline std::vector<cell_ptr> build_cells(const Scenario& s, std::vector<cell_type_param_ptr>* types_out = nullptr) {
     std::vector<cell_type_param_ptr> tp; for (auto& t : s.types) tp.push_back(std::make_shared<cell_type_parameters>(t));
-    std::vector<cell_ptr> cells; unsigned id = 0;
-    for (auto& c : s.cells) cells.push_back(gen::make_cell_of_class(tp[c.type_index]->global_type_id_, c.mesh, id++, tp[c.type_index]));
+    // construction ids: 0,1,2,.. as the initialiser gives them, or (Scenario::construction_ids) all zero as hand-built cells have them / in reverse:
+    // the solver numbers the cells it is given itself
+    std::vector<cell_ptr> cells; unsigned id = 0; const unsigned n = (unsigned)s.cells.size();
+    for (auto& c : s.cells) { const unsigned cid = s.construction_ids == 1 ? 0u : s.construction_ids == 2 ? n - 1 - id : id; cells.push_back(gen::make_cell_of_class(tp[c.type_index]->global_type_id_, c.mesh, cid, tp[c.type_index])); id++; }
     if (types_out) *types_out = tp; return cells;
 }
 
